@@ -130,6 +130,37 @@ pub fn run(rec: &mut Recorder, w: &mut crate::interp::World, tier: &str, seed: u
             rec.count(if dom == 0 { "random-long-stream" } else { "random-long-run-of-one-effect" });
         }
     }
+    // ---- the same combination law observed through the enforcer: one request, one stored rule per effect of the sequence (a
+    //      matching rule marked allow or deny, or a rule that does not match), every sequence up to length 4 - the empty one
+    //      included, where the matcher is evaluated once on empty policy fields and its answer is the only effect ----
+    {
+        use crate::mgmt::{new_enforcer, sv, sval, ModelDef, E_ALLOW, E_BOTH, E_DENY, E_PRIO};
+        for (xi, etext) in [E_ALLOW, E_DENY, E_BOTH, E_PRIO].iter().enumerate() {
+            let m = ModelDef {
+                r: vec![("r".into(), sv(&["sub"]))], p: vec![("p".into(), sv(&["sub", "tag", "eft"]))], g: vec![],
+                e: vec![("e".into(), (*etext).into())],
+                m: vec![("m".into(), "(cmp eq (r 0) (p 0))".into(), "r.sub == p.sub".into())], tbl: vec![],
+            };
+            for n in 0..=4usize {
+                for code in 0..3usize.pow(n as u32) {
+                    let mut c = code; let mut seq = vec![];
+                    for _ in 0..n { seq.push((c % 3) as u8); c /= 3; }
+                    let lines: Vec<Vec<String>> = seq.iter().enumerate().map(|(i, e)| match e {
+                        0 => sv(&["p", "p", "alice", &format!("t{}", i), "allow"]),
+                        1 => sv(&["p", "p", "zed", &format!("t{}", i), if i % 2 == 0 { "allow" } else { "deny" }]),
+                        _ => sv(&["p", "p", "alice", &format!("t{}", i), "deny"]) }).collect();
+                    rec.begin();
+                    if new_enforcer(rec, w, &m, "memory", &lines, "", false) != "ok" { rec.count("new:failed"); continue; }
+                    let out = rec.exec(w, &format!("e.enfs\t{}", sval("alice")));
+                    // no stored rule: the matcher on empty fields does not match, a single indeterminate effect
+                    let want = if n == 0 { declarative(xi, &[1]) } else { declarative(xi, &seq) };
+                    if out != (if want { "t" } else { "f" }) { rec.fail("wrong-verdict", format!("through the enforcer: expr {} rules {:?}: got {} want {}", xi, lines, out, want)); }
+                    rec.count("through-enforcer");
+                    rec.nontrivial_case(&format!("enf|{}|{}", xi, seq_str(&seq)));
+                }
+            }
+        }
+    }
     // malformed stream: unsupported expressions and cap = 0 must panic on both sides
     for (expr, cap) in [("some(where (p.eft == allow))", 1usize), ("", 1), ("priority(p_eft)||deny", 2), (EXPRS[0], 0), (EXPRS[3], 0)] {
         rec.begin();
